@@ -8,9 +8,22 @@
    info_equiv i i'     i' is i with identities, features, forms, the fields of
                        every form and the values of every field permuted
    The hash function H is universally quantified in every statement: nothing
-   is assumed about it. *)
+   is assumed about it.
+
+   The destination of AppendHash is a Go slice: a window (offset, length,
+   capacity) on a backing array that other slices may share (TailModel.v).
+   heap / slice / valid h d   arrays; a window; the window lies inside an array of h
+   read h d                   the visible contents d[:len(d)]
+   append_hash_heap slack H h d i   AppendHash(d, h) as a transition of the heap:
+                              the tail of the function is READ FROM THE SOURCE
+                              (caps_tail) and interpreted; slack is the growth
+                              policy of append (universally quantified)
+   hash_heap slack H h i      Hash(h) (the destination it passes is read from the source)
+   frame h h' d               h' is h with arrays added and no cell changed outside
+                              the spare capacity d[len(d):cap(d)] of d
+   run_calls                  a history of calls on buffers and earlier results *)
 From Coq Require Import Sorting.Permutation.
-From XV Require Import lib.Bytes gen.DiscoCaps C20.Model C20.Spec C20.Proofs.
+From XV Require Import lib.Bytes gen.DiscoCaps C20.Model C20.Spec C20.Proofs C20.TailModel C20.TailProofs.
 
 (* Order independence: for identities with distinct category/type/language the
    verification string does not change under any permutation of identities,
@@ -87,3 +100,76 @@ Theorem C20_tables_are_xep0115 :
   (forall i, panics i = false).
 Proof. exact tables_xep. Qed.
 Print Assumptions C20_tables_are_xep0115.
+
+(* ---- the destination: capacity, spare contents, shared buffers, histories ---- *)
+
+(* What AppendHash returns depends on the CONTENTS of the destination only: for
+   every heap, every window d on it (any offset, length, capacity, anything in
+   the spare capacity, any other slice sharing the array) and every growth
+   policy of append, the call returns and the returned slice reads as
+   append_hash says for the contents of d. *)
+Theorem C20_result_independent_of_capacity : forall slack (H : bytes -> bytes) h d i,
+  valid h d ->
+  exists h' out, append_hash_heap slack H h d i = TOk h' out /\
+    append_hash H (read h d) i = Ok (read h' out).
+Proof. exact append_hash_heap_contents. Qed.
+Print Assumptions C20_result_independent_of_capacity.
+
+(* Hash and AppendHash with an empty destination give the same string — for an
+   empty destination of every capacity (nil, make([]byte, 0, n), buf[:0] of a
+   buffer used before), whatever its spare capacity holds. *)
+Theorem C20_hash_appendhash_agree_every_capacity : forall slack (H : bytes -> bytes) h d i,
+  valid h d -> s_len d = 0 ->
+  exists h' out, append_hash_heap slack H h d i = TOk h' out /\
+    hash_heap slack H h i = HOk (read h' out) /\
+    hash_string H i = Ok (read h' out) /\
+    read h' out = b64enc (H (ver_string i)).
+Proof. exact hash_appendhash_heap. Qed.
+Print Assumptions C20_hash_appendhash_agree_every_capacity.
+
+(* The call writes nowhere but into the spare capacity of its destination and
+   into arrays of its own; the returned slice lies in a new array (it shares no
+   cell with anything the caller held) and is exactly as long as its capacity. *)
+Theorem C20_call_changes_only_spare_capacity : forall slack (H : bytes -> bytes) h d i,
+  valid h d ->
+  exists h' out, append_hash_heap slack H h d i = TOk h' out /\
+    read h' out = b64enc (read h d ++ H (ver_string i)) /\
+    valid h' out /\ frame h h' d /\ length h <= s_arr out /\ s_cap out = s_len out.
+Proof. exact append_hash_heap_spec. Qed.
+Print Assumptions C20_call_changes_only_spare_capacity.
+
+(* Results are independent of later operations: a slice the caller holds (an
+   earlier result, say) reads the same after any later call, unless the caller
+   itself passed its cells as spare capacity of that call's destination. *)
+Theorem C20_results_survive_later_calls : forall slack (H : bytes -> bytes) h d i s h' out,
+  valid h d -> valid h s -> ~ overlaps_spare s d ->
+  append_hash_heap slack H h d i = TOk h' out -> read h' s = read h s.
+Proof. exact call_keeps_other_slices. Qed.
+Print Assumptions C20_results_survive_later_calls.
+
+(* Histories: whatever sequence of calls is made, each with a destination cut
+   from any slice held at that time (the caller's buffers, earlier results,
+   reused or not), every call returns base64(contents of its destination ++
+   digest); with an empty destination that is what Hash returns. *)
+Theorem C20_history_independent : forall slack (H : bytes -> bytes) cs h known,
+  Forall (valid h) known ->
+  let '(rs, hf, kf) := run_calls slack H h known cs in
+  Forall (call_ok H) rs /\ Forall (valid hf) kf.
+Proof. exact (fun slack H cs h known => run_calls_spec slack H cs h known). Qed.
+Print Assumptions C20_history_independent.
+
+Theorem C20_history_empty_destination_is_hash : forall slack (H : bytes -> bytes) cs h known,
+  Forall (valid h) known ->
+  Forall (fun r => match r with
+                   | CallOk dc i out => dc = [] -> hash_string H i = Ok out
+                   | _ => False end)
+         (fst (fst (run_calls slack H h known cs))).
+Proof. exact run_calls_empty_dst. Qed.
+Print Assumptions C20_history_empty_destination_is_hash.
+
+(* The source text these statements are about: the tail of AppendHash sums into
+   the destination, encodes into a buffer obtained from make alone, and returns
+   that buffer; Hash passes nil. *)
+Theorem C20_tail_is_as_modelled : caps_tail = tail_as_modelled /\ caps_hash_dst = TNil.
+Proof. exact (conj tbl_tail tbl_hash_dst). Qed.
+Print Assumptions C20_tail_is_as_modelled.
